@@ -1,11 +1,13 @@
 #!/bin/bash
-# usage: run_seed.sh <seed-dir-name> [prop] [tier] : applies the seeded patch to /repo, runs the check, reverts
+# usage: run_seed.sh <seed-dir-name> [prop] [tier] : applies the seeded patch to /repo, runs the check, reverts.
+# The evidence file of the property is saved and restored: evidence committed in /verif must come from the unchanged tree.
 S=$1; P=${2:-${S%%-*}}; T=${3:-quick}
 cd /verif
+cp evidence/$P.json /tmp/evidence_$P.json.bak 2>/dev/null
 git -C /repo apply /verif/seeded/$S/patch.diff || { echo "$S: APPLY FAILED"; exit 2; }
 out=$(./check $P --tier $T 2>&1 | grep -v conda)
-rc=$?
 git -C /repo checkout -- .
+cp /tmp/evidence_$P.json.bak evidence/$P.json 2>/dev/null
 echo "$S [$P $T]: $(echo "$out" | grep -c '^VIOLATION') violation line(s); $(echo "$out" | grep -E 'obligations' | head -1)"
 echo "$out" | grep -E '^VIOLATION|BROKEN' | head -4
 rm -rf /verif/evidence/replay
